@@ -41,6 +41,22 @@ def _has_remove_idiom(doc):
     return False
 
 
+def _index_map_corner(doc):
+    """mappings that address list elements by index while deleting, or through negative (aliasing) indices:
+    which indices survive is not specified, the baseline outcome itself is undefined there"""
+    def rec(n, deleting):
+        d = n.get('del') if n.get('del') is not None else deleting
+        if n['t'] == 'map':
+            ints = [k for k, _ in n['items'] if isinstance(k, int)]
+            if ints and (d or min(ints) < 0):
+                return True
+            return any(rec(c, d) for _, c in n['items'])
+        if n['t'] == 'seq':
+            return any(rec(c, True if n.get('del') is None else n['del']) for c in n['items'])
+        return False
+    return rec(doc, False)
+
+
 def permute(rng, doc):
     d = copy.deepcopy(doc)
     for _, n in emit.walk(d):
@@ -77,7 +93,7 @@ def gen_case(rng, tier):
     E = lambda d: emit.emit(d, style)
     base = [E(d) for d in docs]
     rel = {}
-    if not _has_remove_idiom(docs[-1]):
+    if not _has_remove_idiom(docs[-1]) and not _index_map_corner(docs[-1]):
         rel['repeat_last'] = [base + [base[-1]]]
     rel['insert_empty'] = [base[:i] + ['{}\n'] + base[i:] for i in range(len(base) + 1)]
     rel['permute_keys'] = [[E(permute(rng, d)) for d in docs] for _ in range(3)]
@@ -141,51 +157,7 @@ def run(case):
     return res
 
 
-import contextlib
-
-
-@contextlib.contextmanager
-def refined_prefilter():
-    """diagnostic only: ConfigList's pre-filter with the rule 'a new key of an existing mapping competes with
-    nothing' (a candidate repair that was judged not small enough to commit, see DESIGN.md C15)"""
-    from awesomeyaml.nodes.list import ConfigList
-    from awesomeyaml.nodes.composed import ComposedNode
-    names = ConfigList.ayns._names
-    orig = names['on_merge_impl']
-
-    def on_merge_impl(self, prefix, other):
-        def keep_if_exists(path, node):
-            if not node.ayns.delete:
-                return True
-            nodes = self.ayns.get_first_not_missing_node(path, intermediate=True)
-            current = nodes[-1]
-            if len(nodes) <= len(path) and not isinstance(current, list):
-                return True
-            return node.ayns.has_priority_over(current, if_equal=True)
-        if isinstance(other, dict):
-            for key in other.ayns.children_names():
-                self._validate_index(key, strict=True)
-        if isinstance(other, ComposedNode):
-            other.ayns.filter_nodes(keep_if_exists)
-        return ComposedNode.ayns._names['on_merge_impl'](self, prefix, other)
-    names['on_merge_impl'] = on_merge_impl
-    try:
-        yield
-    finally:
-        names['on_merge_impl'] = orig
-
-
 def classify(name, base_texts, related_texts):
-    """delta attribution: the known mechanism is claimed only if the relation holds again once the list
-    pre-filter stops dropping deleting nodes that compete with nothing"""
-    if name == 'repeat_last':
-        try:
-            with refined_prefilter():
-                a, b = observe(base_texts), observe(related_texts)
-            if a == b:
-                return 'list-prefilter-drops-noncompeting-deleting-node'
-        except Exception:
-            pass
     return name
 
 
